@@ -843,3 +843,215 @@ def rule_no_shared_state(ctx, rep: Report, rid="R3", packages=("gtwrap/", "scrip
                                                     [f"@{unparse(d)}@{d.lineno}" for d in decos]),
                 f"{mi.rel}:{(globs + decos)[0].lineno if globs or decos else 0}", nontrivial=bool(globs or decos))
     rep.units["shared_state_instances"] = n
+
+
+# ------------------------------------------------------------------------------------------
+# per-item scalar state kept on the wrapper object
+def _self_attr(n, attr=None):
+    return isinstance(n, ast.Attribute) and isinstance(n.value, ast.Name) and n.value.id == "self" and \
+        (attr is None or n.attr == attr)
+
+
+class _MustDef:
+    """Forward must-analysis over one method: is `self.<attr>` assigned on every path from the method's
+    entry to a program point?  Unconditional calls of methods that themselves always assign count."""
+
+    def __init__(self, methods: Dict[str, ast.FunctionDef], attr: str):
+        self.methods, self.attr = methods, attr
+        self.always: Dict[str, bool] = {}
+        self.reads: List[Tuple[str, ast.AST]] = []          # reads reached while not defined
+        self.calls: Dict[str, List[Tuple[str, bool]]] = {}  # callee -> [(caller, defined at the call)]
+
+    def always_defines(self, name: str, depth=4) -> bool:
+        if name in self.always:
+            return self.always[name]
+        self.always[name] = False
+        fn = self.methods.get(name)
+        if fn is not None and depth > 0:
+            self.always[name] = self._block(fn.body, False, None, depth)
+        return self.always[name]
+
+    def _expr(self, e, defined, meth, depth):
+        """Effects of evaluating expression e (in source order, conservatively): records reads/calls."""
+        for n in sorted((x for x in ast.walk(e)), key=lambda x: (getattr(x, "lineno", 0), getattr(x, "col_offset", 0))):
+            if _self_attr(n, self.attr) and isinstance(n.ctx, ast.Load) and meth is not None and not defined:
+                self.reads.append((meth, n))
+            if isinstance(n, ast.Call) and _self_attr(n.func) and n.func.attr in self.methods:
+                if meth is not None:
+                    self.calls.setdefault(n.func.attr, []).append((meth, defined))
+                conditional = False
+                p = n
+                while p is not e and p is not None:
+                    q = parent(p)
+                    if isinstance(q, (ast.IfExp, ast.BoolOp, ast.Lambda, ast.ListComp, ast.GeneratorExp, ast.SetComp, ast.DictComp)):
+                        conditional = True
+                    p = q
+                if not conditional and self.always_defines(n.func.attr, depth - 1):
+                    defined = True
+        return defined
+
+    def _block(self, stmts, defined, meth, depth) -> bool:
+        for st in stmts:
+            if isinstance(st, (ast.FunctionDef, ast.AsyncFunctionDef, ast.ClassDef)):
+                if meth is not None and not defined:
+                    for n in ast.walk(st):
+                        if _self_attr(n, self.attr) and isinstance(n.ctx, ast.Load):
+                            self.reads.append((meth, n))
+                continue
+            if isinstance(st, ast.If):
+                defined = self._expr(st.test, defined, meth, depth)
+                a = self._block(st.body, defined, meth, depth)
+                b = self._block(st.orelse, defined, meth, depth)
+                defined = defined or (a and b)
+            elif isinstance(st, (ast.For, ast.AsyncFor)):
+                defined = self._expr(st.iter, defined, meth, depth)
+                self._block(st.body, defined, meth, depth)
+                self._block(st.orelse, defined, meth, depth)
+            elif isinstance(st, ast.While):
+                defined = self._expr(st.test, defined, meth, depth)
+                self._block(st.body, defined, meth, depth)
+                self._block(st.orelse, defined, meth, depth)
+            elif isinstance(st, (ast.With, ast.AsyncWith)):
+                for it in st.items:
+                    defined = self._expr(it.context_expr, defined, meth, depth)
+                defined = self._block(st.body, defined, meth, depth)
+            elif isinstance(st, ast.Try):
+                self._block(st.body, defined, meth, depth)
+                for h in st.handlers:
+                    self._block(h.body, defined, meth, depth)
+                self._block(st.orelse, defined, meth, depth)
+                defined = self._block(st.finalbody, defined, meth, depth)
+            elif isinstance(st, (ast.Assign, ast.AnnAssign, ast.AugAssign)):
+                if st.value is not None:
+                    defined = self._expr(st.value, defined, meth, depth)
+                tgts = st.targets if isinstance(st, ast.Assign) else [st.target]
+                if isinstance(st, ast.AugAssign) and _self_attr(st.target, self.attr) and meth is not None and not defined:
+                    self.reads.append((meth, st.target))
+                if not isinstance(st, ast.AugAssign) and any(_self_attr(t, self.attr) for t in tgts):
+                    defined = True
+            elif isinstance(st, (ast.Return, ast.Raise)):
+                if getattr(st, "value", None) is not None:
+                    defined = self._expr(st.value, defined, meth, depth)
+                elif getattr(st, "exc", None) is not None:
+                    defined = self._expr(st.exc, defined, meth, depth)
+                return True if isinstance(st, ast.Raise) else defined   # nothing after it on this path
+            else:
+                for child in ast.iter_child_nodes(st):
+                    if isinstance(child, ast.expr):
+                        defined = self._expr(child, defined, meth, depth)
+        return defined
+
+    def run(self):
+        for name, fn in self.methods.items():
+            if name != "__init__":
+                self._block(fn.body, False, name, 4)
+
+
+def _item_state_attrs(methods: Dict[str, ast.FunctionDef]):
+    """Attributes used as per-item scalar state: every write is a plain assignment, at least one write
+    happens outside __init__ and every value written outside __init__ is a literal constant."""
+    writes: Dict[str, List[Tuple[str, ast.AST, str]]] = {}
+    for name, fn in methods.items():
+        for a, node, how in _self_mutations(fn):
+            writes.setdefault(a, []).append((name, node, how))
+    out = {}
+    for a, ws in writes.items():
+        outside = [w for w in ws if w[0] != "__init__"]
+        if not outside or any(w[2] != "assign" for w in ws):
+            continue
+        vals = []
+        for _, node, _ in outside:
+            st = parent(node)
+            while st is not None and not isinstance(st, (ast.Assign, ast.AnnAssign)):
+                st = parent(st) if isinstance(st, (ast.Tuple, ast.List, ast.Starred)) else None
+            vals.append(st.value if st is not None and not isinstance(parent(node), (ast.Tuple, ast.List)) else None)
+        if all(isinstance(v, ast.Constant) for v in vals):
+            out[a] = outside
+    return out
+
+
+def _check_item_state(methods: Dict[str, ast.FunctionDef]):
+    """[(attr, reader method, node, reason)] for per-item scalar state read where an earlier item's value may
+    still be there."""
+    bad = []
+    attrs = _item_state_attrs(methods)
+    for a in sorted(attrs):
+        md = _MustDef(methods, a)
+        md.run()
+        entry_ok: Dict[str, bool] = {}
+
+        def defined_at_entry(m, depth=3):
+            if m in entry_ok:
+                return entry_ok[m]
+            entry_ok[m] = False
+            sites = md.calls.get(m, [])
+            if sites and depth > 0:
+                entry_ok[m] = all(d or defined_at_entry(c, depth - 1) for c, d in sites)
+            return entry_ok[m]
+        for m, node in md.reads:
+            if not defined_at_entry(m):
+                bad.append((a, m, node))
+    return attrs, bad
+
+
+_ITEM_STATE_POSITIVE = '''
+class W:
+    def __init__(self):
+        self.flag = False
+    def methods(self, ms):
+        self.flag = False
+        for m in ms:
+            if m == "serialize":
+                self.flag = True
+    def item(self, c):
+        if c.methods:
+            self.methods(c.methods)
+        return self.flag
+'''
+_ITEM_STATE_NEGATIVE = _ITEM_STATE_POSITIVE.replace("        if c.methods:\n            self.methods(c.methods)", "        self.methods(c.methods)")
+
+
+def rule_item_state_defined_before_use(ctx, rep: Report, rid="R7", packages=("gtwrap/",), min_classes=10):
+    """Scalar state that a wrapper keeps on `self` and re-assigns while it works through declarations (a flag
+    set while one class is wrapped) is assigned on every path before it is read: otherwise the value computed
+    for an earlier declaration - or an earlier file / call - decides what is emitted for this one."""
+    prog = ctx.prog
+    # the rule's expected instance count on this code base is zero: prove on every run that it can fire
+    for label, src, want in (("positive", _ITEM_STATE_POSITIVE, True), ("negative", _ITEM_STATE_NEGATIVE, False)):
+        t = ast.parse(src)
+        for p_ in ast.walk(t):
+            for c_ in ast.iter_child_nodes(p_):
+                c_._parent = p_
+        ms = {f.name: f for f in t.body[0].body if isinstance(f, ast.FunctionDef)}
+        attrs, bad = _check_item_state(ms)
+        if bool(bad) != want or "flag" not in attrs:
+            raise AnalysisError(f"{rep.prop}/{rid}: built-in {label} example is not decided as expected")
+    n = 0
+    for mi in sorted(prog.modules.values(), key=lambda m: m.rel):
+        if not mi.rel.startswith(packages):
+            continue
+        for qual, ci in sorted(mi.classes.items()):
+            methods: Dict[str, ast.FunctionDef] = {}
+            for k in prog.mro(ci):
+                for name, fn in k.methods.items():
+                    methods.setdefault(name, fn)
+            if not methods:
+                continue
+            attrs, bad = _check_item_state(methods)
+            n += 1
+            flagged = {}
+            for a, m, node in bad:
+                flagged.setdefault(a, []).append((m, node))
+            for a in sorted(attrs):
+                sites = flagged.get(a, [])
+                rep.add(rid, f"item-state:{ci.qual}.{a}:assigned on every path before it is read", not sites,
+                        f"self.{a} is re-assigned while declarations are processed (" +
+                        ", ".join(sorted({w[0] for w in attrs[a]})) + ") but " +
+                        "; ".join(f"{m} reads it at line {node.lineno} on a path without a preceding assignment" for m, node in sites[:3]) +
+                        ": the value left by the previous class / file / call is used",
+                        f"{mi.rel}:{sites[0][1].lineno if sites else 0}", nontrivial=True)
+            rep.add(rid, f"item-state:{ci.qual}:per-item scalar attributes analysed", True,
+                    f"{len(attrs)} attribute(s) re-assigned outside __init__ with constant values", f"{mi.rel}:{ci.node.lineno}",
+                    nontrivial=False)
+    if n < min_classes:
+        raise AnalysisError(f"{rep.prop}/{rid}: only {n} classes analysed")
